@@ -405,6 +405,25 @@ func famMeta(sh *Shards, n int, stats map[string]int) error {
 		emit(fmt.Sprintf("meta/vb%d/len2", vi), stream(1, 2, [][]byte{vbChunk(vb.v, [4]int{2, 2, 2, 2}, 0, 2)}, tails[1]))
 		emit(fmt.Sprintf("meta/vb%d/len4", vi), stream(1, 4, [][]byte{vbChunk(vb.v, [4]int{4, 1, 2, 4}, 0, 4)}, tails[2]))
 	}
+	// every viewBox over {-Inf, -1, 0 (both signs), 1, +Inf, NaN} in its four positions (2401; a seventh of them per seed
+	// in the quick tier): valid exactly when all four are finite and min <= max in both axes
+	{
+		vals := []float32{-inf, -1, 0, float32(math.Copysign(0, -1)), 1, inf, nan}
+		k := 0
+		for _, a := range vals {
+			for _, b := range vals {
+				for _, c := range vals {
+					for _, d := range vals {
+						k++
+						if !thorough() && k%7 != int(seed()%7) {
+							continue
+						}
+						emit(fmt.Sprintf("meta/vb-special/%d", k), stream(1, 1, [][]byte{vbChunk([4]float32{a, b, c, d}, [4]int{4, 4, 4, 4}, 0, 1)}, tails[k%3]))
+					}
+				}
+			}
+		}
+	}
 	// a viewBox chunk that holds only one, two or three whole coordinates (of every width) and says so in its length, at
 	// the end of the input and followed by a body
 	for have := 0; have < 4; have++ {
